@@ -2,6 +2,49 @@
 from vlib import common as C
 from vlib import conc
 from vlib import memsearch
+import os
+import re
+
+# the coroutine layer's other transfer configuration (same definition as checks/C13.py): YACLIB_TRANSFER is then
+# `handle.resume(); return true` instead of a symmetric transfer; the macro is used only by AwaitUnlock / AwaitUnlockOn
+C.LIB_KINDS.setdefault('fiber_nosym', (['-DCMAKE_BUILD_TYPE=RelWithDebInfo', '-DYACLIB_FAULT=FIBER', '-DYACLIB_CXX_STANDARD=20',
+                                        '-DYACLIB_FLAGS=CORO;DISABLE_SYMMETRIC_TRANSFER', '-DYACLIB_DEFINITIONS=YACLIB_VERIF'],
+                                       ['-std=c++20', '-fcoroutines', '-DYACLIB_VERIF']))
+
+
+def nosym_pass(res, tier):
+    """Second pass against the library built without symmetric transfer: reduced scenario set (batched hand-over with
+    Unlock / UnlockOn / sticky unlock, k = 3, all four option combinations) in the quick tier, everything in the thorough
+    tier; the traces are validated against the same model (it does not depend on the transfer mode)."""
+    binary = C.build_harness('c14', 'fiber_nosym', ['c14.cpp'])
+    trace_file = os.path.join(C.WORK, 'C14_%s_nosym_%d_traces.txt' % (tier, os.getpid()))
+    if tier == 'quick':
+        args = ['--set', 'nosym', '--mode', 'dfs', '--pb', '2', '--wb', '1']
+    else:
+        args = ['--set', 'full', '--mode', 'dfs', '--pb', '3', '--wb', '1', '--max-exec', '40000']
+    stats, samples, violations = conc.run_harness(binary, args + ['--seed', str(C.seed()), '--out', trace_file])
+    val = conc.validate('comutex', trace_file)
+    try:
+        os.remove(trace_file)
+    except OSError:
+        pass
+    seen = set()
+    for v in violations:
+        scen, msg = conc.violation_key(v)
+        short = re.sub(r'[^A-Za-z0-9]+', '_', msg)[:40]
+        if short in seen:
+            continue
+        seen.add(short)
+        res.violation('config: fiber_nosym (library built with DISABLE_SYMMETRIC_TRANSFER)\n' + v,
+                      msg + ' [non-symmetric transfer build; ' + scen + ']', name='C14_%s_nosym_%s.txt' % (tier, short))
+    if not violations and val is not None and val['mismatches']:
+        res.violation('config: fiber_nosym\n' + '\n'.join(val['mismatches'][:10]),
+                      'correspondence broken in the non-symmetric transfer build: an implementation trace is not a trace of the model comutex (%s)'
+                      % val['mismatches'][0][:160], no_input=True, name='C14_%s_nosym_correspondence.txt' % tier)
+    res.coverage['nosym_pass'] = {'explorer': stats, 'traces_validated': val['ok'] if val else 0,
+                                  'trace_mismatches': len(val['mismatches']) if val else None,
+                                  'rule_counts': val['rules'] if val else {}}
+    res.coverage['evaluations'] = res.coverage.get('evaluations', 0) + stats['executions']
 
 RULES = ['tlLoad.free', 'tlLoad.locked', 'tlLoad.locked.try', 'tlCasOk', 'tlCasFail', 'tlCasFail.try', 'tryFail',
          'alLoad.free', 'alLoad.locked', 'alCasLock', 'alCasPush', 'alCasFail.spurious', 'alCasFail.changed',
@@ -15,6 +58,7 @@ STALE = ['tlLoad.stale', 'alLoad.stale', 'ulLoad.empty.stale']
 
 def run(res, tier):
     res.assumptions += [
+        'two library configurations: the default one (symmetric transfer) with the full scenario set, and DISABLE_SYMMETRIC_TRANSFER with the batched hand-over scenarios (quick) / everything (thorough); the model is the same',
         'every holder releases and executors accept work (hypotheses of the property): in the model a holder\'s program continues with its release form and a granted coroutine is runnable; in the harness the instrumented executor never rejects',
         'the theorems are for any number of coroutines, any programs and all four <Batching,FIFO> combinations; the harness runs 2..3 coroutines x 1..2 rounds on an inline executor, a single-worker and a two-worker queue executor driven by harness fibers',
         'the model allows stale pre-check loads; the FIBER backend never produces them (model behaviours ⊇ implementation behaviours) and the validator insists on current values',
@@ -28,6 +72,7 @@ def run(res, tier):
         search_args=[['--mode', 'dfs', '--pb', '3', '--wb', '1', '--max-exec', '60000'],
                      ['--mode', 'random', '--random-runs', '3000']],
         unmodelled_ok=STALE)
+    nosym_pass(res, tier)
     # an obligation broke and no schedule shows anything: search the memory-model clause ("what one critical section wrote
     # is visible in the next") with the C04 machinery restricted to the mutex (vlib/memsearch.py)
     memsearch.refine_no_input(res, 'C14', tier, ['include/yaclib/coro/mutex.hpp'], 'comutex')
@@ -35,4 +80,8 @@ def run(res, tier):
 
 def replay(path):
     r = memsearch.replay(path)
-    return conc.replay('C14', path) if r is None else r
+    if r is not None:
+        return r
+    if 'config: fiber_nosym' in open(path).read():
+        return conc.replay('C14', path, lib_kind='fiber_nosym')
+    return conc.replay('C14', path)
